@@ -17,8 +17,9 @@ Three stages, as in the Go:
   Rules modelled: missing member or `null` → zero value; a member of the wrong JSON type →
   error; exact member names only (Go also accepts other capitalisations: outside the model).
 * `rebuild` — the two passes over `types`, the directives, the root types.
-* Go panics are values: `parseTypeRef` dereferences `OfType` without a nil check
-  (`Err.panic`), and the goroutine it runs in has no `recover`, so a panic is a process crash.
+* Go panics are values: before its repair `parseTypeRef` dereferenced `OfType` without a nil
+  check (`Err.panic`; the goroutine it runs in has no `recover`, so a panic is a process crash);
+  the repaired tree returns an error (`Err.noOfType`). `noOfTypeErr` picks the one the source has.
 Core Lean only.
 -/
 namespace PebblesVerif.Model.Remote
@@ -32,13 +33,15 @@ inductive Err where
   | noUnionImpl        -- "could not find type definition for union implementation"
   | noIfaceImpl        -- "Could not find type definition for union implementation"
   | noDirectiveName    -- "could not find directive's name"
-  | panic              -- nil pointer dereference in parseTypeRef
+  | panic              -- nil pointer dereference in parseTypeRef (before repair)
+  | noOfType           -- "could not find the wrapped type of a type reference" (repaired tree)
   deriving Repr, DecidableEq, Inhabited
 
 def Err.tag : Err → String
   | .wrongLength => "wrongLength" | .decode => "decode" | .noRootQuery => "noRootQuery"
   | .noTypeName => "noTypeName" | .noUnionImpl => "noUnionImpl" | .noIfaceImpl => "noIfaceImpl"
   | .noDirectiveName => "noDirectiveName" | .panic => "panic"
+  | .noOfType => "noOfType"
 
 /-! ## decoded answer (the Go structs) -/
 
@@ -210,13 +213,19 @@ def decode (resp : J) : Except Err (Option SchemaA) :=
 
 /-! ## `parseTypeRef`, `parseInputField`, `parseArgList`, `parseType` -/
 
-/-- `parseTypeRef`: `response.OfType.…` without nil checks -/
+/-- what a LIST / NON_NULL reference without `ofType` ends in: `parseTypeRef` of the repaired tree
+    guards `response == nil` and `response.OfType == nil` and returns an error; before the repair it
+    dereferenced nil in a goroutine without `recover` (a process crash). Which of the two the source
+    does is a regenerated fact. -/
+def noOfTypeErr : Err := if Gen.Remote.typeRefNilChecked then .noOfType else .panic
+
+/-- `parseTypeRef` -/
 def parseTypeRef : TRef → Except Err TypeRef
-  | .nil => throw .panic
+  | .nil => throw noOfTypeErr
   | .mk k n o =>
     if k = "NON_NULL" then
       match o with
-      | .nil => throw .panic                       -- response.OfType.Kind
+      | .nil => throw noOfTypeErr                  -- response.OfType == nil
       | .mk k2 n2 o2 =>
         if k2 = "LIST" then do pure (.nonNull (.list (← parseTypeRef o2)))
         else pure (.nonNull (.named n2))           -- NonNullNamedType(response.OfType.Name)
